@@ -300,7 +300,7 @@ mutant('C07', 'resolver: default shape from table names off', TPI, "            
 mutant('C07', 'standard: force column in energy units', DPI, "\"unit\": lammps_unit['force']}", "\"unit\": lammps_unit['energy']}", 'RESOLVER')
 mutant('C07', 'regress-F6 poscar cartesian not scaled', PD, "    if scale is False:\n        pos = pos / box_scale\n", "", 'POSCAR')
 mutant('C07', 'poscar lattice multiplied by scale', PD, "vects = system.box.vects / box_scale", "vects = system.box.vects * box_scale", 'POSCAR')
-mutant('C07', 'poscar counts skip last type', PD, "for i in range(1, int(uatype.max()+1)):", "for i in range(1, int(uatype.max())):", 'POSCAR')
+mutant('C07', 'poscar counts skip last type', PD, "for i in range(1, system.natypes+1):\n        count = counts[uatype==i]", "for i in range(1, system.natypes):\n        count = counts[uatype==i]", 'POSCAR')
 mutant('C07', 'poscar positions not grouped by type', PD, "    for a in range(1, system.natypes+1):\n        for p in pos[atype==a]:\n            poscar_string += '\\n'+ threexf % tuple(p)", "    for p in pos:\n        poscar_string += '\\n'+ threexf % tuple(p)", 'POSCAR')
 mutant('C07', 'poscar k not recognised as cartesian', PD, "if coordstyle[0] in 'cCkK':", "if coordstyle[0] in 'cC':", 'POSCAR')
 benign('C07', 'box line via f-string label', AD, "content += xf2 % (xlo, xhi) +' xlo xhi\\n'", "content += xf2 % (xlo, xhi) + ' xlo' + ' xhi\\n'")
@@ -704,3 +704,6 @@ benign('C10', 'default unit of the cell filled in inside System.model', 'atomman
 # regressions of the fix: commit 256214a (reduce_indices on blocks of index sets)
 mutant('C16', 'regress-256214a reduce_indices divides through the transposed block', 'atomman/tools/miller.py', "    red_indices = indices // n[..., np.newaxis]\n", "    red_indices = (indices.T // n).T\n", 'UTIL')
 benign('C16', 'reduce_indices: divisor expanded by expand_dims', 'atomman/tools/miller.py', "    red_indices = indices // n[..., np.newaxis]\n", "    red_indices = indices // np.expand_dims(n, -1)\n")
+
+# regressions of the fix: commit 1ff65ea (POSCAR counts for every atom type of the system)
+mutant('C07', 'regress-1ff65ea POSCAR counts stop at the largest type in use', 'atomman/dump/poscar/dump.py', "    for i in range(1, system.natypes+1):\n        count = counts[uatype==i]", "    for i in range(1, int(uatype.max()+1)):\n        count = counts[uatype==i]", 'POSCAR')
